@@ -138,8 +138,9 @@ impl Stats {
     });
     (p.len() - 1, sub_no)
   }
-  fn attempt(&self, pid: usize, was: bool, ev: &Ev) {
-    let stamp = arx_rt::stamp();
+  /// `stamp` is taken before `was` is sampled: a stamp later than the return of an
+  /// unsubscribe call means that the sample was taken after that return
+  fn attempt(&self, pid: usize, stamp: u64, was: bool, ev: &Ev) {
     lk(&self.probes)[pid].attempts.push(Attempt { stamp, was_subscribed: was, ev: ev.clone() });
   }
   fn factory_call(&self, id: usize) {
@@ -265,8 +266,9 @@ impl Env {
         let snap: Vec<(usize, Observer<'static, V>)> = lk(&core.subs).clone();
         for (pid, o) in snap {
           arx_rt::burn(1);
+          let stamp = arx_rt::stamp();
           let was = o.is_subscribed();
-          self.stats.attempt(pid, was, ev);
+          self.stats.attempt(pid, stamp, was, ev);
           match ev {
             Ev::N(i) => o.next(V::new(ctx, P::I(*i))),
             Ev::E(c) => o.error(mk_err(*c)),
@@ -353,8 +355,9 @@ impl Env {
       let script = &scripts[k.min(scripts.len() - 1)];
       for ev in script {
         arx_rt::burn(1);
+        let stamp = arx_rt::stamp();
         let was = s.is_subscribed();
-        stats.attempt(pid, was, ev);
+        stats.attempt(pid, stamp, was, ev);
         if polite && !was {
           break;
         }
